@@ -4,7 +4,7 @@ from fractions import Fraction
 
 from ..tyob import *  # noqa
 from ..tyob import analyse, expect, item, unmodelled_in, check_forwarder, read_property
-from ..poly import Normaliser, Poly
+from ..poly import Normaliser, Poly, straightline_env
 from ..program import norm_stmt
 from ..sweep import sweep
 
@@ -291,6 +291,20 @@ def complex_order(chk):
     chk.ob("R-CPLX-ORDER", c + "[argmax operand]", "argmax over a real, even, non-negative amplitude", len(am) == 1 and
            am[0].args[0].dtype == "real" and is_nonneg(am[0].args[0].sign), derived="operand dtype %s" % (am[0].args[0].dtype if am else None),
            loc=am[0].loc if am else r.fi.loc())
+
+
+    # and it is the period OF that bin: exactly the reciprocal of the frequency selected by the argmax (coefficient 1)
+    rets = [n for n in ast.walk(r.fi.node) if isinstance(n, ast.Return) and n.value is not None]
+    if len(rets) == 1:
+        env_ = straightline_env(r.fi.node.body, Normaliser(), exclude=set(r.fi.params))
+        pl = env_.poly(rets[0].value)
+        okp = False
+        if pl.is_monomial():
+            (m_, co_), = pl.t.items()
+            d_ = dict(m_)
+            okp = co_ == 1 and len(d_) == 1 and list(d_.values()) == [-1] and "fa_frequencies[" in list(d_)[0]
+        chk.ob("R-CPLX-ORDER", c + "{reciprocal}", "the period is 1 / (frequency of the largest-amplitude bin)", okp, derived=pl.canon(),
+               loc=r.fi.loc(rets[0]), stmt=norm_stmt(rets[0]), inconclusive=not pl.is_monomial())
 
 
 def _mini(P, src):
